@@ -360,3 +360,32 @@ PROPS["C08"] = dict(
 PROPS["C09"]["mounts"] = G_MOUNTS
 PROPS["C09"]["harnesses"].append(H(MG, "c08_walk_and_c09_transit", fs=4096, mem=16, bounds="2 modules (transit T, receiver B), 3 gates; active flags symbolic; message at a gate of T is dropped iff T is shut down"))
 PROPS["C09"]["functions"].append("MessageExitingConnection::handle_with_sink (inactive-owner drop)")
+
+
+# --------------------------------------------------------------------------- C07 channels
+M07 = "net::channel::verif_c07"
+PROPS["C07"] = dict(
+    crate="des",
+    mounts=CQ_MOUNTS + [dict(file="des/src/net/channel.rs", decl="mod verif_c07", harness="c07.rs"),
+                        dict(file="des/src/net/module/mod.rs", decl="pub(crate) mod verif_mod", harness="net_module_stub.rs")],
+    prepend=DES_PREPEND,
+    functions=["des::net::channel::Channel::{new,send_message,unbusy,set_busy_until,is_busy,calculate_busy}", "ChannelMetrics::{calculate_busy,calculate_duration}", "ChannelDropBehaviour::handle", "Buffer::{enqueue,dequeue}", "Message::length"],
+    level_text="Kernel + step level (bounded model checking). Kernel: busy time = (64+len)*8/bitrate rounded to the nearest nanosecond, exact against integer arithmetic for the bitrates 8, 1e6, 1e9, 1e10 bit/s with symbolic length < 2^16 (f64 division bit-blasted); zero-jitter delay = busy + latency. Steps from a directly constructed channel state with symbolic metrics (bitrate, latency, Drop/Queue(None)/Queue(limit)), symbolic now and message lengths: one send_message (idle: exactly one delivery at now+busy+latency and one unbusy notification at now+busy, busy flag and finish time set; busy: queued iff the byte bound admits it, FIFO, acc_bytes exact, otherwise dropped, nothing transmitted, also when the offer arrives exactly at the end of the busy period) and one unbusy with 1-2 queued messages (head transmitted first; afterwards the queue is empty or the channel is busy - never idle with a backlog). Jitter (f64 Uniform sampling) and multi-step traffic patterns are outside.",
+    claim="Channel state is built through set_busy_until and Buffer::enqueue (child module access); events are collected in a Vec sink.",
+    assumptions=NR_STUBS[1:] + ["global RNG = harness RngCore returning 0 (jitter fixed to zero in step harnesses)", "field sensitivity 4096", "message bodies () with declared length"],
+    outside=["jitter sampling (f64 Uniform)", "bitrates >= 2^40 in the arithmetic kernel / > 2^44 in the unbusy step", "sequences of more than one step (count conservation over whole traffic patterns is argued from the steps)", "delivery across several hops (C08)"],
+    harnesses=[
+        H(M07, "c07_busy_time_8bps", bounds="bitrate 8 bit/s, body len < 2^16 symbolic; exact ns"),
+        H(M07, "c07_busy_time_1mbps", bounds="bitrate 1e6, len < 2^16"),
+        H(M07, "c07_busy_time_1gbps", bounds="bitrate 1e9, len < 2^16"),
+        H(M07, "c07_busy_time_10gbps", bounds="bitrate 1e10 (rounding to nearest ns), len < 2^16"),
+        H(M07, "c07_busy_time_zero_threshold", tier="experimental", bounds="bitrate < 2^46 symbolic, len < 2^12 symbolic; zero / >=1ns thresholds"),
+        H(M07, "c07_send_idle_transmits", fs=4096, mem=16, bounds="idle channel; bitrate 8e9 (1 byte/ns), latency<=1000ns, now<=1000, policy symbolic, offered len<=300"),
+        H(M07, "c07_send_idle_unlimited_bitrate", fs=4096, mem=16, bounds="idle channel; bitrate 0 (unlimited), latency<=1000ns, now<=1000, offered len<=300"),
+        H(M07, "c07_send_busy_drop", fs=4096, mem=16, bounds="busy until fin in [now,2000] (incl. fin==now), Drop policy, 0/1 queued msg, offered len<=300"),
+        H(M07, "c07_send_busy_queue_unbounded", fs=4096, mem=16, bounds="busy, Queue(None), 0/1 queued msg (len<=100), offered len<=300"),
+        H(M07, "c07_send_busy_queue_bounded", fs=4096, mem=16, bounds="busy, Queue(limit<=400 symbolic), 0/1 queued msg, offered len<=300"),
+        H(M07, "c07_unbusy_step_one_queued", fs=4096, mem=16, unwindset=[(r"Channel::unbusy", None, 3)], bounds="bitrate in [1,2^44], one queued message len<=1000; unbusy at now=1000"),
+        H(M07, "c07_unbusy_step_two_queued", fs=4096, mem=24, unwindset=[(r"Channel::unbusy", None, 3)], bounds="bitrate in [1,2^44], two queued messages len<=1000 each; unbusy"),
+    ],
+)
